@@ -25,8 +25,9 @@ def relevant(pid, desc, safety_owner):
 class KaniProp:
     def __init__(self, package, instances_fn, safety_owner, shims=("memchr",), small=True,
                  functions=(), assumptions=(), outside=(), extra_args=(), quick_cap_s=1500,
-                 thorough_cap_s=3 * 3600, mem_cap_gb=12, test_path="verif::replay::run", selftest=False, gen_mod=None):
+                 thorough_cap_s=3 * 3600, mem_cap_gb=12, test_path="verif::replay::run", selftest=False, gen_mod=None, replay_with_shims=False):
         self.selftest = selftest
+        self.replay_with_shims = replay_with_shims
         self.gen_mod = gen_mod or matcher_props
         self.package = package
         self.instances_fn = instances_fn
@@ -109,11 +110,6 @@ class KaniProp:
                 r.covers = {k: ("SATISFIED" if k.startswith("END") else v) for k, v in r.covers.items()}
                 if not any(k.startswith("END") for k in r.covers):
                     r.covers["END (expected assertion reached)"] = "SATISFIED"
-            # vacuity: the end of every harness must be reachable
-            endc = [v for k, v in r.covers.items() if k.startswith("END")]
-            if not endc or any(v != "SATISFIED" for v in endc):
-                inconclusive.append("%s: harness end not reachable (vacuous assumptions?)" % inst.name)
-                continue
             eng = [d for (d, l, i) in r.failed if d.startswith("ENGINE")]
             if eng:
                 inconclusive.append("%s: %s" % (inst.name, eng[0]))
@@ -121,6 +117,12 @@ class KaniProp:
             rel = [(d, l, i) for (d, l, i) in r.failed if relevant(pid, d, self.safety_owner)
                    and not any(n in d for n in ENGINE_NOISE)]
             if not rel:
+                # vacuity: the end of every harness must be reachable (a failed check of ANOTHER
+                # property also cuts the path, since Kani assumes a condition after asserting it:
+                # that property's own check reports it)
+                endc = [v for k, v in r.covers.items() if k.startswith("END")]
+                if (not endc or any(v != "SATISFIED" for v in endc)) and not r.failed:
+                    inconclusive.append("%s: harness end not reachable (vacuous assumptions?)" % inst.name)
                 continue
             # a solver counterexample: extract and replay natively before reporting
             log("[%s] %s: %d relevant failed checks, e.g. %s" % (pid, inst.name, len(rel), rel[0][0]))
@@ -176,8 +178,8 @@ class KaniProp:
 
     def _replay(self, pid, sc, inst, rel, r, logdir):
         tapes = engine.extract_tapes(sc, r.symtab, inst.name, inst.unwind, [i for (_, _, i) in rel], logdir,
-                                    unwind_rules=getattr(inst, 'unwind_rules', None))
-        if not tapes:
+                                    unwind_rules=getattr(inst, 'unwind_rules', None), extra_cbmc=getattr(inst, 'cbmc_extra', ()))
+        if tapes is None or len(tapes) == 0:
             return ("inconclusive", "no counterexample trace produced")
         seen = set()
         last = "no tape reproduced"
@@ -192,7 +194,7 @@ class KaniProp:
                 if self.gen_mod is nucleo_props:
                     nucleo_props.write_gen(sc, "quick", extra=[inst], small=getattr(inst, "small", self.small))
                 res, out = engine.native_replay(sc, self.package, inst.name, tape, profile, small=getattr(inst, "small", self.small),
-                                                test_path=self.test_path)
+                                                test_path=self.test_path, with_shims=self.replay_with_shims)
                 failed = re.findall(r"REPLAY-CHECK-FAILED (.*)", out)
                 relf = [d for d in failed if relevant(pid, d, self.safety_owner)]
                 if res == "violated" and relf:
@@ -221,7 +223,7 @@ class KaniProp:
             if self.gen_mod is nucleo_props:
                 nucleo_props.write_gen(sc, "quick", extra=[inst], small=getattr(inst, "small", self.small))
             res, out = engine.native_replay(sc, self.package, inst.name, [], profile, small=getattr(inst, "small", self.small),
-                                            test_path=self.test_path)
+                                            test_path=self.test_path, with_shims=self.replay_with_shims)
             failed = re.findall(r"REPLAY-CHECK-FAILED (.*)", out)
             relf = [d for d in failed if relevant(pid, d, self.safety_owner)]
             if res == "violated" and relf:
@@ -255,7 +257,7 @@ class KaniProp:
             bad = False
             for profile in ("dev", "release"):
                 res, out = engine.native_replay(sc, rec["package"], rec["harness"], rec["tape"], profile,
-                                                small=rec.get("small", self.small), test_path=self.test_path)
+                                                small=rec.get("small", self.small), test_path=self.test_path, with_shims=self.replay_with_shims)
                 print("replay %s: %s" % (profile, res))
                 for d in re.findall(r"REPLAY-CHECK-FAILED (.*)", out):
                     print("   failed: " + d)
@@ -427,7 +429,7 @@ boxcar = KaniProp("nucleo", nucleo_props.boxcar_instances, "C08", shims=NUCLEO_S
                   outside=["interleavings of concurrent push/extend/get (Kani has no threads; CBMC's thread encoding rejects Rust-generated pointer code) - sequential histories only",
                            "fill callbacks that panic (panic=abort under Kani)", "histories longer than the per-tier bound"])
 
-proto = KaniProp("nucleo", nucleo_props.proto_instances, "C06", shims=NUCLEO_SHIMS, gen_mod=nucleo_props,
+proto = KaniProp("nucleo", nucleo_props.proto_instances, "C06", shims=NUCLEO_SHIMS, gen_mod=nucleo_props, replay_with_shims=True,
                  functions=["Nucleo::{new, injector, restart, tick, tick_inner, active_injectors, snapshot}", "Injector::{clone, drop, push}", "Snapshot::{update, clear}",
                             "Worker::{new, run, process_new_items, process_new_items_trivial, reset_matches, remove_in_flight_matches, item_count}", "State::*", "MultiPattern::{status, reset_status}",
                             "boxcar::Vec::*", "par_sort::par_quicksort"],
